@@ -56,6 +56,7 @@ static int n_exp_r;
 static long n_parses, n_defs, n_mismatch, n_sent_parses, n_err_parses, n_hits, n_hit_diff, n_sets, n_recs, n_trees_cmp;
 
 static char cfgstr[96] = "-";
+static int mp1, mp2;		/* make_parse hook events of the current parse */
 
 static void json_str (FILE *f, const char *s)
 {
@@ -83,7 +84,7 @@ static void mismatch (const char *what, const char *got, const char *exp)
   json_str (stdout, got);
   printf (",\"exp\":");
   json_str (stdout, exp);
-  printf ("}\n");
+  printf (",\"mp1\":%d,\"mp2\":%d}\n", mp1, mp2);
 }
 
 static void mismatch_i (const char *what, long got, long exp)
@@ -460,6 +461,7 @@ static void sink (const struct yaep_verif_event *ev)
 	}
     }
   else if (ev->kind == YAEP_VERIF_REC) n_recs++;
+  else if (ev->kind == YAEP_VERIF_MP) { if (ev->a == 1) mp1++; else mp2++; }
   if (!sets_active) return;
   snprintf (buf, sizeof buf, "%s{\"k\":%d,\"a\":%d,\"b\":%d,\"c\":%d,\"d\":%d,\"e\":%d,\"it\":[", trace_sets.n ? "," : "", ev->kind, ev->a, ev->b, ev->c, ev->d, ev->e);
   sb_add (&trace_sets, buf);
@@ -490,12 +492,12 @@ static void do_parse (int la, int one, int cost, int rec, int match, int dbg, in
   LIB (G_SET_REC (cur, rec));
   LIB (G_SET_MATCH (cur, match));
   LIB (G_SET_DEBUG (cur, dbg));
-  rd_i = 0; ncalls = 0;
+  rd_i = 0; ncalls = 0; mp1 = mp2 = 0;
   ledger_reset ();
   ledger_on = (mem == 0 || mem == 2);
   lib_before = yv_lib_live;
 #ifdef YAEP_VERIF
-  if (opt_sets) { trace_sets.n = 0; if (trace_sets.s) trace_sets.s[0] = 0; sets_active = opt_trace; }
+  trace_sets.n = 0; trace_sets.s[0] = 0; sets_active = opt_trace && opt_sets;
 #endif
   alarm (20);
   if (mem == 0) LIB (rc = G_PARSE (cur, read_tok_cb, syn_err_cb, pa_cb, pf_cb, &root, &amb));
@@ -633,7 +635,7 @@ static void do_parse (int la, int one, int cost, int rec, int match, int dbg, in
       printf (",\"w\":"); json_str (stdout, wid);
       printf (",\"toks\":[");
       for (i = 0; i < ntoks; i++) printf ("%s%d", i ? "," : "", toks_in[i]);
-      printf ("],\"la\":%d,\"one\":%d,\"cost\":%d,\"rec\":%d,\"match\":%d,\"rc\":%d,\"root\":%d,\"amb\":%d,\"calls\":[", la, one, cost, rec, match, rc, root != NULL, amb != 0);
+      printf ("],\"la\":%d,\"one\":%d,\"cost\":%d,\"rec\":%d,\"match\":%d,\"rc\":%d,\"root\":%d,\"amb\":%d,\"mp1\":%d,\"mp2\":%d,\"calls\":[", la, one, cost, rec, match, rc, root != NULL, amb != 0, mp1, mp2);
       for (i = 0; i < ncalls && i < MAXW; i++) printf ("%s[%d,%d,%d]", i ? "," : "", calls[i].err, calls[i].ign, calls[i].rec);
       printf ("],\"trees\":[");
       if (ridx >= 0) for (i = 0; i < nds[ridx].nset; i++) { if (i) printf (","); json_str (stdout, nds[ridx].set[i]); }
@@ -755,7 +757,8 @@ int main (int argc, char **argv)
   yv_install_handlers ();
   if (getenv ("YV_STDERR") == NULL && freopen ("/dev/null", "w", stderr) == NULL) {}
 #ifdef YAEP_VERIF
-  if (opt_sets) { sb_init (&trace_sets); yaep_verif_sink = sink; }
+  sb_init (&trace_sets);
+  if (getenv ("YV_NOSINK") == NULL) yaep_verif_sink = sink;
 #endif
   clear_expect ();
   lib0 = yv_lib_live;
